@@ -83,14 +83,19 @@ def valueOf (pos vtype s : String) : JV :=
   else .str s.toList
 
 /-- the body `{op:{key:value}}`, possibly wrapped next to a bound sibling, as `query.ParseJSON` decodes it -/
-def bodyExpr (ep : Endpoint) (key op pos vtype wrap s : String) : Option Expr :=
+def bodyExpr (ep : Endpoint) (key op pos vtype wrap s : String) (sibBound : Bool := false) : Option Expr :=
   let op' := if pos == "op" then s else op
   if !validOps.contains op' then none    -- "$and"/"$or" over an object, or an unknown operator: refused by ParseJSON
   else
     let k := keyWith key pos s
     let leaf := Expr.leaf (classifyKey ep k) op' (valueOf pos vtype s)
-    let sibKey := if ep == .logs then "date" else "metadata[sib]"
-    let sib := Expr.leaf (classifyKey ep sibKey) "$match" (.str "sibling".toList)
+    -- the sibling is a metadata clause, or (sib = "bound") one whose value travels as a bound argument
+    let sibKey := if ep == .logs then "date"
+      else if sibBound && ep == .transactions then "reference"
+      else if sibBound && ep == .accounts then "balance[USD]"
+      else "metadata[sib]"
+    let sibVal : JV := if sibBound && ep == .accounts then .num 10 else .str "sibling".toList
+    let sib := Expr.leaf (classifyKey ep sibKey) "$match" sibVal
     some (if wrap == "and-before" then .set true [sib, leaf]
           else if wrap == "and-after" then .set true [leaf, sib]
           else if wrap == "or" then .set false [leaf, sib]
@@ -108,18 +113,18 @@ def parseInt64Ok (s : String) : Bool :=
     let n := ds.foldl (fun a c => a * 10 + (c.toNat - 48)) 0
     if neg then n ≤ 9223372036854775808 else n ≤ 9223372036854775807
 
-def one (api ep key op pos vtype wrap qkey : String) (pitGiven : Bool) (s : String) : Except String Outcome := do
+def one (api ep key op pos vtype wrap qkey : String) (pitGiven : Bool) (s : String) (sibBound : Bool := false) : Except String Outcome := do
   if ep == "accounts.get" then return .skip
   if pos == "pit" then return .skip
   let e ← endpointOf ep
   let ledger := "l0"
   if api == "v2" then
-    match bodyExpr e key op pos vtype wrap s with
+    match bodyExpr e key op pos vtype wrap s sibBound with
     | none => return .rejected "parse"
     | some x => return ofRender (renderFilter e true ledger x)   -- v2 always has a point in time (now when not given)
   -- v1
   if key == "query" then
-    match bodyExpr e qkey op pos vtype wrap s with
+    match bodyExpr e qkey op pos vtype wrap s sibBound with
     | none => return .rejected "parse"
     | some x => return ofRender (renderFilter e pitGiven ledger x)
   let strV (t : String) : JV := .str t.toList
@@ -187,8 +192,9 @@ def handle : Handler := fun j => do
   let dom := (getStr j "dom").toOption.getD ""
   let h ← getStr j "hostile"
   let t ← getStr j "harmless"
-  let oh ← one api ep key op pos vtype wrap qkey (pit != "") h
-  let ot ← one api ep key op pos vtype wrap qkey (pit != "") t
+  let sibBound := (getStr j "sib").toOption == some "bound"
+  let oh ← one api ep key op pos vtype wrap qkey (pit != "") h sibBound
+  let ot ← one api ep key op pos vtype wrap qkey (pit != "") t sibBound
   let twin := if dom == "addr" then harmless h
     else if dom == "num" then String.ofList (h.toList.map (fun c => if c == '-' || c == '+' then c else if c.isDigit then '1' else 'a'))
     else String.ofList (harmlessChars h.toList)
